@@ -1199,6 +1199,31 @@ func diffGen(g *G, tier string) []M {
 			ops = append(ops, M{"op": "diff", "n": base, "m": other})
 			continue
 		}
+		if g.Chance(0.05) {
+			// two nodes that differ in letter case only, in one attribute: different values
+			at, _ := base["a"].(M)
+			if at == nil {
+				at = M{}
+				base["a"] = at
+			}
+			other = Normalize(base).(M)
+			oa := other["a"].(M)
+			switch g.Int(4) {
+			case 0:
+				at["Name"], oa["Name"] = "OpenSSL", "openssl"
+			case 1:
+				at["Hashes"], oa["Hashes"] = []any{[]any{3.0, "ab12"}}, []any{[]any{3.0, "AB12"}}
+			case 2:
+				at["Licenses"], oa["Licenses"] = []any{"MIT", "apache-2.0"}, []any{"MIT", "Apache-2.0"}
+			default:
+				at["Identifiers"], oa["Identifiers"] = []any{[]any{1.0, "pkg:npm/Left-Pad@1"}}, []any{[]any{1.0, "pkg:npm/left-pad@1"}}
+			}
+			if g.Chance(0.5) {
+				base, other = other, base
+			}
+			ops = append(ops, M{"op": "diff", "n": base, "m": other})
+			continue
+		}
 		switch g.Int(8) {
 		case 7:
 			// a supplier / originator (or one of its contacts) that differs from its twin in white
